@@ -318,17 +318,20 @@ def pubrt(t):
 
 
 def bip38rt(t):
-    """bip38rt <exporter K|H> <net> <secret hex> <compressed t|f> <password hex> <vias>: encrypt once, import the BIP38 text
+    """bip38rt <exporter K|H|F> <net> <secret hex> <compressed t|f> <password hex> <vias> [<frozen text> when F]: encrypt once, import the BIP38 text
     through every entry point named in vias (k = Key, h = HDKey, f = bip38_decrypt, n = Key without network=)"""
     from bitcoinlib.keys import bip38_decrypt
     exporter, net, sec, comp, pw, vias = t[1:7]
     pw = unhx(pw).decode('latin-1')
     try:
-        if exporter == 'H':
+        if exporter == 'F':                       # a FROZEN text (corpus/C12, reference encryptor): nothing is exported here
+            e = t[7]
+        elif exporter == 'H':
             src = HDKey(unhx(sec), network=net, compressed=tf(comp), witness_type='legacy')
+            e = src.encrypt(pw)
         else:
             src = Key(unhx(sec), network=net, compressed=tf(comp))
-        e = src.encrypt(pw)
+            e = src.encrypt(pw)
     except Exception as ex:
         return 'EXPORT ' + err_tok(ex)
     out = ['E=%s' % e]
